@@ -277,8 +277,14 @@ func (rn *runner) batch(reqs []hreq, bi int) error {
 		wit := map[string]interface{}{"flavour": rn.flav, "method": q.method, "url": url, "body_len": len(q.body), "body_head_hex": fmt.Sprintf("%x", q.body[:min(len(q.body), 96)]), "mutation": q.mut, "batch": sent}
 		if err != nil {
 			if err == drv.ErrWatchdog {
-				c.Inconclusive("request outlived the watchdog: " + desc)
 				c.Count("watchdog_"+q.class, 1)
+				if wedged, where := drv.Wedged(rn.w.Stderr()); wedged {
+					// not a wall-clock verdict: the goroutine dump shows the request parked for minutes with nobody left to wake it
+					wit["goroutine_dump"] = c.SaveText(fmt.Sprintf("wedged-%s-%s.txt", q.class, drv.Hash(url, string(q.body))), rn.w.Stderr())
+					c.Violation("request-never-answered:"+q.class+":"+short(where), fmt.Sprintf("[%s] %s is never answered: its goroutine is parked in %s and no goroutine is left that could wake it", rn.flav, desc, where), wit)
+				} else {
+					c.Inconclusive("request outlived the watchdog: " + desc)
+				}
 				return rn.restart()
 			}
 			fatal := drv.FatalInStderr(rn.w.Stderr())
@@ -598,7 +604,7 @@ func run(c *drv.Ctx) error {
 	idx := 0
 
 	for _, f := range flavours {
-		if ph := os.Getenv("C20_PHASE"); ph == "huge" || ph == "scenarios" {
+		if ph := os.Getenv("C20_PHASE"); ph == "huge" || ph == "scenarios" || ph == "wellformed" {
 			break
 		}
 		nruns := c.N(2, 16)
@@ -627,6 +633,11 @@ func run(c *drv.Ctx) error {
 		}
 	}
 	wg.Wait()
+	if ph := os.Getenv("C20_PHASE"); ph == "" || ph == "wellformed" {
+		if err := wellformedRun(c, bins[""]); err != nil {
+			errs = append(errs, "well-formed workload: "+err.Error())
+		}
+	}
 	if ph := os.Getenv("C20_PHASE"); ph == "" || ph == "scenarios" {
 		if err := scenarioRun(c, bins[""]); err != nil {
 			errs = append(errs, "scenario probes: "+err.Error())
